@@ -227,6 +227,14 @@ func propC15(j *Job) {
 			}
 		}
 	}
+	// the threshold is crossed while the stream is closing (Close called with data outstanding)
+	for _, mode := range modes {
+		for _, th := range []uint64{0, 100} {
+			spec := &resetSpec{A: withBase(mode.A, 100, 9, 4000), B: withBase(mode.B, 100, 99, 4000), SIDs: []uint16{5}, Sizes: []int{200, 300}, Cycles: 1,
+				Faults: faultSet{Drop: true, Late: true}, BackSizes: []int{12}, CheckCallback: true, Threshold: th}
+			j.Explore(fmt.Sprintf("B/%s/close-with-data/th%d", mode.Name, th), resetScenario(spec), Budget{K: 1}, nil)
+		}
+	}
 	// buffered amount of a stream that keeps writing after its inbound direction was reset (C14 cycle)
 	for _, mode := range modes[:1] {
 		spec := &resetSpec{A: withBase(mode.A, 100, 9, 4000), B: withBase(mode.B, 100, 99, 4000), SIDs: []uint16{5}, Sizes: []int{9}, Cycles: 1,
